@@ -72,7 +72,7 @@ func VerifH_SYS_C17() {
 	connectReturned := false
 	// an unrelated second client of the same process (default options), never connected, with its own handler
 	var cli2 ReconnectClient
-	if verifChoice("otherclient", 2) == 1 {
+	if verifParam("other", 1) == 1 && verifChoice("otherclient", 2) == 1 {
 		var err2 error
 		cli2, err2 = NewReconnectClient(&vbroker{}, WithReconnectWait(unit, 4*unit))
 		verifAssert(err2 == nil, "SYS.new_client")
@@ -187,6 +187,7 @@ func VerifH_SYS_C17() {
 		}()
 	}
 	// another message on the live connection, after a possible replacement
+	verifIOWrite()
 	verifLock()
 	if n := len(b.conns); n > 0 && b.accepted[n-1] && !b.conns[n-1].closed && !b.conns[n-1].eof {
 		c := b.conns[n-1]
